@@ -504,8 +504,8 @@ func memRun(seed int64, kind string, calls []string, fill byte) []memStep {
 		}
 	case "ecdsa":
 		curve := elliptic.P384()
-		sk, _ := ecdsa.CreateKey(curve, p384Scalar(seed, "mem-ec-sk"))
-		bk, _ := ecdsa.CreateKey(curve, p384Scalar(seed, "mem-ec-bk"))
+		sk, _ := rawKey(curve, p384Scalar(seed, "mem-ec-sk"))
+		bk, _ := rawKey(curve, p384Scalar(seed, "mem-ec-bk"))
 		keyBytes := func() []byte {
 			return bytes.Join([][]byte{sk.D.Bytes(), sk.X.Bytes(), sk.Y.Bytes(), bk.D.Bytes(), bk.X.Bytes(), bk.Y.Bytes()}, nil)
 		}
